@@ -62,6 +62,15 @@ def perturbations(d, rng, quick):
                     if whole or m == j:
                         e[c][m] = d[c][m] * 1.1 + (1.0 if d[c][m] == 0 else 0.0)
             out.append(("supply", f"{c}{'*' if whole else '@' + str(j)}", e, "ge"))
+    # each meat input alone (they are separate inputs of the optimiser; raising one of them must never hurt)
+    if d["add_meat"]:
+        e = cp(); e["meat_total"] = d["meat_total"] * 1.02 + 1.0
+        out.append(("supply", "meat_total-alone", e, "ge"))
+        e = cp(); j = rng.randrange(n)
+        e["meat_running"] = [x * 1.05 + (1.0 if m >= j else 0.0) for m, x in enumerate(d["meat_running"])]
+        out.append(("supply", f"meat_running-alone@{j}", e, "ge"))
+        e = cp(); e["meat_monthly"] = [x * 1.1 + 1.0 for x in d["meat_monthly"]]
+        out.append(("supply", "meat_monthly-alone", e, "ge"))
     # waste down
     ws = [w for w in WASTES if d[w] >= 5 and d["add_" + w[2:]]]
     for w in (rng.sample(ws, min(len(ws), 2)) if quick else ws):
@@ -117,8 +126,11 @@ def run(ctx):
             d = rec["lp_in"]
             d["ty"] = rec["ty"]
             bases.append(({"iso3": run_["iso3"], "solve": k, "scenario": run_["option"].get("scenario")}, d, rec))
-    for _ in range(nsyn):
-        d = lpgen.gen_spec(rng, ty="to_humans" if rng.random() < 0.85 else "to_animals", solvable=True, nmax=16)
+    for k in range(nsyn):
+        if k % 3 == 2:
+            d = lpgen.gen_targeted(rng, k)
+        else:
+            d = lpgen.gen_spec(rng, ty="to_humans" if rng.random() < 0.85 else "to_animals", solvable=True, nmax=16)
         bases.append(({"synthetic": True}, d, None))
     items, meta = [], []
     for where, d, rec in bases:
@@ -171,6 +183,18 @@ def run(ctx):
         tol = REL * (1 + abs(target))
         badness = (exp == "ge" and p < base_opt - tol) or (exp == "le" and p > base_opt + tol) or \
                   (exp == "eq" and abs(p - target) > tol)
+        if badness and abs(p - target) <= 2e-3 * (1 + abs(target)):
+            # small gaps on ill-conditioned instances can be CBC's precision: decide on an independent exact-ish re-solve
+            import lpspec
+            sb, ob, _ = lpspec.solve_spec(base_spec, base_spec["ty"])
+            sp, op_, _ = lpspec.solve_spec(spec, spec["ty"])
+            if sb == 0 and sp == 0:
+                tg = ob * (float(exp0[3:]) if exp0.startswith("eq*") else 1.0)
+                tl = REL * (1 + abs(tg))
+                ok2 = (exp == "ge" and op_ >= tg - tl) or (exp == "le" and op_ <= tg + tl) or (exp == "eq" and abs(op_ - tg) <= tl)
+                if ok2:
+                    dist.setdefault("solver_tolerance_cases", []).append({"where": where, "label": label, "cbc": [base_opt, p], "highs": [ob, op_]})
+                    badness = False
         if badness:
             ctx.violation(f"C12:{kind}-monotonicity",
                           f"{kind} perturbation {label}: optimum {base_opt} -> {p} (expected {exp}) on {where}",
